@@ -61,7 +61,12 @@ Judge(ev) ==
                     [] ev.fn = "cast" -> FoldCast(t, lk)
          \* right operand of a shift: its own (promoted) type is not logged; counts >= 64 are undefined anyway
          rlit == IF ev.op \in ShiftOps THEN Lit("ulong", CToZU(ev.r)) ELSE LitOf(lt, ev.r)
-         surf == CASE ev.fn = "binary" -> EBin(ev.op, LitOf(lt, ev.l), rlit)
+         \* (P + C1) +- C2 folds byte offsets into the node of C2: C1 is unsigned long, the result has the type of C2
+         \* (long for `(long)&a[1] + 2`): same width, the value is the unsigned result converted to that type
+         offs == /\ ev.fn = "binary" /\ ev.op \in {"+", "-"} /\ IsInt(lt) /\ IsInt(t)
+                 /\ CastBits(lt) = CB /\ CastBits(t) = CB /\ TyKey(lt) # TyKey(t)
+         surf == CASE ev.fn = "binary" /\ offs -> ECast(t, EBin(ev.op, LitOf(lt, ev.l), rlit))
+                   [] ev.fn = "binary" /\ ~offs -> EBin(ev.op, LitOf(lt, ev.l), rlit)
                    [] ev.fn = "unary" -> EUn("-", LitOf(lt, ev.l))
                    [] ev.fn = "cast" -> ECast(t, LitOf(lt, ev.l))
          valid == ValidOperand(lt, ev.l) /\ (ev.fn = "binary" /\ ev.op \notin ShiftOps => ValidOperand(lt, ev.r))
@@ -71,6 +76,7 @@ Judge(ev) ==
          mistyped == /\ ev.fn \in {"binary", "unary"}
                      /\ ev.op \notin RelOps
                      /\ TyKey(lt) # TyKey(t)
+                     /\ ~offs
          declok == /\ TyKey(decl.t) = TyKey(t)
                    /\ IF IsFloat(t) THEN got.f = decl.v ELSE got.u = COfZ(decl.v)
      IN IF model.st = "unspec" THEN [cls |-> "skip-unspec", dv |-> model.dv]
